@@ -101,6 +101,61 @@ pub struct CheckArgs {
     pub start_index: u64,
 }
 
+fn relevant_probes(prop: &str) -> Vec<&'static str> {
+    let madctl = ["madctl_000", "madctl_001", "madctl_010", "madctl_011", "madctl_100", "madctl_101", "madctl_110", "madctl_111"];
+    let place = ["offset_under_mx", "offset_under_my", "offset_under_mv", "window_touches_fb_right", "window_touches_fb_bottom"];
+    let clip = ["clip_left", "clip_top", "clip_right", "clip_bottom", "clip_multi", "rect_encloses", "rect_disjoint", "rect_zero"];
+    let mut v: Vec<&'static str> = Vec::new();
+    let mut add = |xs: &[&'static str]| v.extend_from_slice(xs);
+    match prop {
+        "C01" => {
+            add(&madctl);
+            add(&place);
+            add(&["draw_iter_long_run", "sparse_memory", "stream_short", "vendor_page_used", "sleep_toggled", "restarted", "coord_ge_256"]);
+        }
+        "C02" => {
+            add(&madctl);
+            add(&place);
+            add(&clip);
+            add(&["coord_ge_65536", "coord_negative", "stream_short", "stream_surplus", "sparse_memory"]);
+        }
+        "C03" => {
+            add(&madctl);
+            add(&["draw_iter_long_run"]);
+        }
+        "C04" => {
+            add(&madctl);
+            add(&clip);
+            add(&["stream_short", "stream_surplus"]);
+        }
+        "C05" => add(&["vendor_page_used"]),
+        "C08" => {
+            add(&madctl);
+            add(&place);
+            add(&clip);
+            add(&["coord_ge_65536", "coord_negative", "orientation_changed", "restarted", "draw_iter_long_run"]);
+        }
+        "C09" => add(&["init_rejected"]),
+        "C10" => {
+            add(&madctl);
+            add(&place);
+            add(&["orientation_changed", "coord_ge_65536", "clip_right"]);
+        }
+        "C11" => add(&["init_unsupported", "vendor_page_used", "restarted"]),
+        "C12" => {
+            add(&madctl);
+            add(&["fault_fired", "fault_error_after_effect", "retry_succeeded", "failed_call_not_retried", "orientation_changed", "sleep_toggled", "restarted"]);
+        }
+        "C13" => add(&["sleep_toggled", "fault_fired", "retry_succeeded", "restarted", "orientation_changed"]),
+        "C16" => add(&["scroll_sum_overflow_region"]),
+        "C17" => add(&["restarted", "vendor_page_used", "fault_fired"]),
+        "C19" => add(&madctl),
+        "C20" => add(&["row_flush_capacity", "draw_iter_long_run", "spi_exact_multiple", "spi_count_lt_capacity", "spi_buf_not_multiple", "clip_right"]),
+        _ => {}
+    }
+    v
+}
+
 fn truncate_sample(rc: &ReplayCase) -> Value {
     let mut v = serde_json::to_value(rc).unwrap_or(Value::Null);
     fn trunc(v: &mut Value) {
@@ -223,7 +278,10 @@ pub fn run_check(a: &CheckArgs) -> i32 {
         println!("{}", l);
     }
     let probes: serde_json::Map<String, Value> = PROBE_NAMES.iter().enumerate().map(|(i, n)| (n.to_string(), json!(stats.probes[i]))).collect();
-    let stuck: Vec<&str> = PROBE_NAMES.iter().enumerate().filter(|(i, _)| stats.probes[*i] == 0).map(|(_, n)| *n).collect();
+    // a probe stuck at zero means the workload must change - but only probes this
+    // property's workload is meant to reach are reported
+    let relevant = relevant_probes(&a.prop);
+    let stuck: Vec<&str> = PROBE_NAMES.iter().enumerate().filter(|(i, n)| stats.probes[*i] == 0 && relevant.contains(n)).map(|(_, n)| *n).collect();
     let partial = json!({
         "property_id": a.prop,
         "build": bi.label,
